@@ -1,3 +1,69 @@
-(* placeholder until the proofs are in *)
-From Coq Require Import NArith List.
-From Morfuse Require Import C10.Model C10.Spec.
+(* C10/Properties.v - the property theorems of C10, and nothing else.
+   Every theorem is closed by [exact <lemma>] and followed by Print Assumptions. *)
+From Coq Require Import ZArith NArith List Bool.
+From Morfuse Require Import C10.Model C10.Spec C10.Proofs.
+Import ListNotations.
+Local Open Scope N_scope.
+
+(* For EVERY header/version/name and EVERY sequence of Archive* calls (all primitive kinds,
+   Raw blocks, strings, plain and weak pointers - null, backward, forward, into the
+   object that contains them, to objects that are only positioned -, object positions,
+   objects of the host classes with such calls as their body) whose values fit their C++
+   types: a reader that makes the same sequence of calls on the bytes the writer produced
+   - it only knows the shape of the items - completes without error and delivers every
+   value unchanged and every pointer aimed at the reader's object that stands for the
+   pointer's target; a pointer whose target was never archived comes back null.
+   This holds whichever way the two repaired decisions of the reader (caf: report a short
+   read; vor: version test with ||) are taken: an intact archive never triggers them. *)
+Theorem C10_reading_back_what_was_written :
+  forall (caf vor : bool) (h : hdr) (its : list item),
+    wf_case h its = true ->
+    read caf vor h (shape its) (write h its) = OOk (spec_items its).
+Proof. exact round_trip. Qed.
+Print Assumptions C10_reading_back_what_was_written.
+
+(* ... and when every non-null pointer target is archived (ArchiveObject or
+   ArchiveObjectPosition) somewhere in the sequence - before or after the pointer - the
+   items read are exactly the items written: same values, same pointer-identity relation. *)
+Theorem C10_values_and_pointer_identities_survive :
+  forall (caf vor : bool) (h : hdr) (its : list item),
+    wf_case h its = true -> all_targets_archived its = true ->
+    read caf vor h (shape its) (write h its) = OOk its.
+Proof. exact round_trip_identity. Qed.
+Print Assumptions C10_values_and_pointer_identities_survive.
+
+(* what the driver prints as "m" equals what it prints as "s" *)
+Theorem C10_model_run_meets_the_specification :
+  forall (h : hdr) (its : list item),
+    wf_case h its = true -> snd (run_case h its) = spec_case h its.
+Proof. intros h its H. exact (round_trip true true h its H). Qed.
+Print Assumptions C10_model_run_meets_the_specification.
+
+Theorem C10_the_reader_uses_only_the_shape :
+  forall its : list item, shape (shape its) = shape its.
+Proof. exact shape_idem. Qed.
+Print Assumptions C10_the_reader_uses_only_the_shape.
+
+(* non-vacuity: forward, backward, self and null pointers, a listener, a positioned object,
+   an empty and a binary string, a NaN pattern *)
+Definition ex_hdr : hdr := mkHdr [77; 70; 85; 83] 1 [77; 111; 114].
+Definition ex_items : list item :=
+  [ ILeaf (LPtr true (Some 5)); ILeaf (LPtr false (Some 7)); ILeaf (LStr []);
+    IObj 0 5 [LPrim KInt16 32768; LPtr false (Some 5); LPtr true (Some 7); LStr [200; 1; 255]];
+    IObj 2 7 [LPtr true None; LPrim KFloat 2143289344]; ILeaf (LPos 9); ILeaf (LPtr false (Some 9));
+    ILeaf (LPtr false (Some 5)); ILeaf (LRaw [0; 255]) ].
+
+Example C10_example_is_representable :
+  wf_case ex_hdr ex_items = true /\ all_targets_archived ex_items = true.
+Proof. vm_compute. split; reflexivity. Qed.
+
+Example C10_example_round_trip :
+  read true true ex_hdr (shape ex_items) (write ex_hdr ex_items) = OOk ex_items /\
+  length (write ex_hdr ex_items) = 244%nat.
+Proof. vm_compute. split; reflexivity. Qed.
+
+(* a pointer to an object that is not in the archive comes back null *)
+Example C10_example_dangling_target :
+  read true true ex_hdr (shape [ILeaf (LPtr false (Some 3))]) (write ex_hdr [ILeaf (LPtr false (Some 3))])
+  = OOk [ILeaf (LPtr false None)].
+Proof. vm_compute. reflexivity. Qed.
